@@ -58,4 +58,38 @@ theorem halfReduced_mono (f : TransFns Rat) (tk p q : Rat) (htk : 0 < tk) (h : p
   exact Rat.mul_lt_mul_of_pos_right hn (Rat.inv_pos.mpr hd)
 
 
+/-- the sum `calc_psi_avg` accumulates, written as a specification: charge (eq) of the groups that take part
+(charged, and not an excluded co-ion) inside the Donnan volume at reduced potential `p` -/
+def donnanCharge (sq ratio : Rat) (onlyCount : Bool) (ex : Rat → Rat) : List (Rat × Rat) → Rat → Rat
+  | [], _ => 0
+  | g :: rest, p =>
+    (if (g.1 ≤ 0 ∧ 0 ≤ g.1) ∨ (onlyCount = true ∧ 0 < sq * g.1) then 0 else g.2 * (ex (-g.1 * p) * ratio))
+      + donnanCharge sq ratio onlyCount ex rest p
+
+theorem donnanFd_fst_acc (f : TransFns Rat) (sq ratio : Rat) (oc : Bool) (groups : List (Rat × Rat)) (p a b : Rat) :
+    letI := ratOps f
+    (groups.foldl (fun (acc : Rat × Rat) (g : Rat × Rat) =>
+      let z := g.1
+      let co := sq * z
+      if (z ≤ NumOps.lit 0 ∧ NumOps.lit 0 ≤ z) ∨ (oc = true ∧ NumOps.lit 0 < co) then acc
+      else
+        let temp := NumOps.exp (-z * p) * ratio
+        (acc.1 + g.2 * temp, acc.2 - z * g.2 * temp)) (a, b)).1 = a + donnanCharge sq ratio oc f.exp groups p := by
+  induction groups generalizing a b with
+  | nil => simp only [List.foldl_nil, donnanCharge]; grind
+  | cons g rest ih =>
+    simp only [List.foldl_cons, donnanCharge, NumOps.lit, NumOps.ofRat, id_eq, NumOps.exp]
+    by_cases h : (g.1 ≤ 0 ∧ 0 ≤ g.1) ∨ (oc = true ∧ 0 < sq * g.1)
+    · simp only [h, if_true]
+      have := ih a b
+      simp only [NumOps.lit, NumOps.ofRat, id_eq, NumOps.exp] at this
+      rw [this]; grind
+    · simp only [h, if_false]
+      have := ih (a + g.2 * ((ratOps f).fns.exp (-g.1 * p) * ratio)) (b - g.1 * g.2 * ((ratOps f).fns.exp (-g.1 * p) * ratio))
+      simp only [NumOps.lit, NumOps.ofRat, id_eq, NumOps.exp] at this
+      rw [this]
+      have e : (ratOps f).fns.exp (-g.1 * p) = f.exp (-g.1 * p) := rfl
+      rw [e]; grind
+
+
 end PhreeqcVerif.Surface
